@@ -13,4 +13,10 @@ window only after that - the order the model's `doOnPublish` has (theorem c01_co
 application publishes from inside `on_publish`: a slot freed before the callback lets that publish overtake the backlog) -/
 theorem session_doOnPublish_order : Gen.doOnPublishOrderOk = true := rfl
 
+/-- T1: in `Client._handle_pubrec`, for a stored message, the state becomes `wait_for_pubcomp` unconditionally and before PUBREL
+is handed to `_send_pubrel()` - as in the model's `handlePubrec` -, so that a PUBREL write that fails cannot make the client
+forget the PUBREC (C02: `c02_rec_phase_closed` / `c02_no_republish`; seeded C02, X37 made the state change depend on the result
+of the write) -/
+theorem session_handlePubrec_order : Gen.handlePubrecOrderOk = true := rfl
+
 end Paho
